@@ -24,7 +24,7 @@ let out_of (t : int) (text : string) : cl_out list =
 let step1 (cfg : cl_cfg) (s : cl_state) (ev : cl_event) (os : cl_out list) (m : cmon) : (string * string) list * cmon =
   let tag p l = List.map (fun c -> (p, "clause" ^ string_of_int (int_of_n c))) l in
   let (m', mf) = cmon_step cfg s ev os m in
-  (tag "C23" (chk_C23c os) @ tag "C27" (chk_C27 cfg s ev os) @ tag "C17" (chk_C17 cfg s ev os) @ tag "C31" (chk_C31c cfg os)
+  (tag "C23" (chk_C23c os) @ tag "C27" (chk_C27 cfg s ev os) @ tag "C27" (chk_C27b cfg s ev os) @ tag "C17" (chk_C17 cfg s ev os) @ tag "C31" (chk_C31c cfg os)
    @ List.map (fun c -> let c = int_of_n c in ("C06", if c < 10 then Printf.sprintf "clause%d class=same-id-both-directions" c else Printf.sprintf "clause%d" (c - 10))) (chk_C06c cfg s ev os)
    @ List.map (fun (p, c) -> (Printf.sprintf "C%02d" (int_of_n p), Printf.sprintf "clause%d" (int_of_n c))) mf, m')
 
